@@ -2,11 +2,13 @@ import ScVerif.Base.Line
 import ScVerif.C03.Model
 import ScVerif.C03.Equiv
 import ScVerif.C03.Compose
+import ScVerif.C03.IcptDef
 /-!
 Driver handler for C03.  Messages are pairs of integers `(l, t)` (two independent fields); a plain integer `k`
 stands for `(k, 0)`.
 
-Request: `run <init> <progs> <subs> <sched>`
+Request: `run <init> <progs> <subs> <sched>` | `runi <m> <init> <progs> <subs> <sched>` (the collection has the id
+interceptor `· % m`: the programs name ids in the callers' spellings, `initI`; init ids are stored ids)
 * init   `-` or `id:val,...`  (val = `l` or `l.t`)
 * progs  writers separated by `|`, operations by `;` (empty writer `-`): `u/<id>/s<k>` set to (k,0), `u/<id>/a<k>` add k
          to the first field (absent = 0), `u/<id>/c<e>.<v>` set to (v,0) if the current value is (e,0) (else no commit),
@@ -28,7 +30,7 @@ Decision tables (K2): `fwd <incl> <mask> <id> <old|-> <new|->` — one change th
 `<A|U|R>:<old>:<new>`; `merge <A|U|P|R>/<old|->/<new|-> <A|U|P|R>/<old|->/<new|->` — the merge stage holding the first
 change receives the second (same id): `cancel` or `<A|U|R>:<old>:<new>`.
 
-`pullid <id> <init> <progs> <subs> <sched>` — the same run, read as `Collection.PullID id` by subscriber 0:
+`pullid <id> <init> <progs> <subs> <sched>` | `pullidi <m> <id> <init> <progs> <subs> <sched>` — the same run, read as `Collection.PullID id` by subscriber 0:
 `store=…|vals=<values delivered, `;` separated>|ended=<0|1>` (`Sub.pullID`, `Sub.pullIDEnded`).
 
 Composing adapter (openclosepb `Model.PullPositions`): `compose <updatesOnly 0|1> <emptyAtSubscribe 0|1> <mask n|s|p>
@@ -269,11 +271,22 @@ def handle (toks : List String) : String :=
   | some r => r
   | none =>
   match toks with
-  | ["run", init, progs, subs, sched] =>
+  | "run" :: args | "runi" :: args =>
+    -- `runi <m> …`: the collection has the id interceptor `· % m`; the programs name ids in the callers' spellings
+    let parsed : Option (Option Nat × String × String × String × String) := match toks.head?, args with
+      | some "run", [init, progs, subs, sched] => some (none, init, progs, subs, sched)
+      | some "runi", [m, init, progs, subs, sched] => (parseNat? m).bind (fun m => if m = 0 then none else some (some m, init, progs, subs, sched))
+      | _, _ => none
+    match parsed with
+    | none => "!bad-op"
+    | some (im, init, progs, subs, sched) =>
     match parseInit? init, (progs.splitOn "|").mapM parseProg?, parseSubs? subs, parseSched? sched, parseSubEqs? subs with
     | some init, some progs, some subs, some sched, some eqs =>
       let s₀ : Nat → Option V := fun i => (init.find? (fun kv => kv.1 == i)).map (·.2)
-      let c₀ : Cfg V := initCfg s₀ (fun t => progs.getD t []) (fun s => subs.getD s ⟨false, false, id, none⟩)
+      let sopts : Nat → SubOpts V := fun s => subs.getD s ⟨false, false, id, none⟩
+      let c₀ : Cfg V := match im with
+        | none => initCfg s₀ (fun t => progs.getD t []) sopts
+        | some m => initI (· % m) s₀ (fun t => progs.getD t []) sopts
       let (c, acts) := expand subs.length c₀ sched []
       let ss := (List.range subs.length).map (fun s =>
         let sb := c.subs s
@@ -286,12 +299,27 @@ def handle (toks : List String) : String :=
       s!"store={showView c.store}|" ++ "|".intercalate ss ++
         s!"|pubs={c.pubs.length}|lock={if c.lock.isSome then 1 else 0}|ord={if ordered c₀ acts then 1 else 0}"
     | _, _, _, _, _ => "!bad-op"
-  | ["pullid", pid, init, progs, subs, sched] =>
-    -- `Collection.PullID pid` by subscriber 0: the values its stream delivers and whether a REMOVE has ended it
+  | "pullid" :: args | "pullidi" :: args =>
+    -- `Collection.PullID pid` by subscriber 0: the values its stream delivers and whether a REMOVE has ended it;
+    -- `pullidi <m> <pid> …`: id interceptor `· % m`, `pid` and the programs' ids in the callers' spellings
+    let parsed : Option (Option Nat × String × String × String × String × String) := match toks.head?, args with
+      | some "pullid", [pid, init, progs, subs, sched] => some (none, pid, init, progs, subs, sched)
+      | some "pullidi", [m, pid, init, progs, subs, sched] =>
+        (parseNat? m).bind (fun m => if m = 0 then none else some (some m, pid, init, progs, subs, sched))
+      | _, _ => none
+    match parsed with
+    | none => "!bad-op"
+    | some (im, pid, init, progs, subs, sched) =>
     match parseNat? pid, parseInit? init, (progs.splitOn "|").mapM parseProg?, parseSubs? subs, parseSched? sched with
     | some pid, some init, some progs, some subs, some sched =>
       let s₀ : Nat → Option V := fun i => (init.find? (fun kv => kv.1 == i)).map (·.2)
-      let c₀ : Cfg V := initCfg s₀ (fun t => progs.getD t []) (fun s => subs.getD s ⟨false, false, id, none⟩)
+      let sopts : Nat → SubOpts V := fun s => subs.getD s ⟨false, false, id, none⟩
+      let c₀ : Cfg V := match im with
+        | none => initCfg s₀ (fun t => progs.getD t []) sopts
+        | some m => initI (· % m) s₀ (fun t => progs.getD t []) sopts
+      let pid := match im with
+        | none => pid
+        | some m => pid % m   -- `PullID` begins with `id = c.idInterceptor(id)` too
       let (c, _) := expand subs.length c₀ sched []
       let sb := c.subs 0
       -- an updates-only subscriber is sent no seed (`base` is then a ghost: what it must already know)
